@@ -281,6 +281,9 @@ def run_history_case(prog, params):
                     if 'C03' in props and not (exp.status == 'unspecified' and v == 'R'):
                         snap = snapshot(sr, u)
                         check_wellformed(sr, u, snap, key_base, findings)
+                    if 'C05' in props and not (exp.status == 'unspecified' and v == 'R'):
+                        # the observers must agree with each other whatever state the call left behind
+                        consistency(sr, u, snapshot(sr, u), None, key_base + '|after_contract_violation', findings, walk=True)
                     if 'C08' in props:
                         check_lower(key_base, op, v)      # lower layers stay untouched whatever the contract says about the call
                     break
